@@ -468,6 +468,7 @@ impl Value {
     pub fn rerank(&mut self, rank: &Self, env: &Uiua) -> UiuaResult {
         self.meta.take_map_keys();
         let irank = rank.as_int(env, "Rank must be an integer")?;
+        let row_count = self.row_count();
         let shape = &mut self.shape;
         let rank = irank.unsigned_abs();
         if irank >= 0 {
@@ -497,6 +498,10 @@ impl Value {
             *shape = once(new_first_dim)
                 .chain(shape[rank..].iter().copied())
                 .collect();
+        }
+        if self.row_count() != row_count {
+            // The rows of several merged axes are not in the order of the old rows
+            self.meta.take_sorted_flags();
         }
         self.validate();
         Ok(())
